@@ -297,6 +297,22 @@ def check_r4(col: Collector, repo: Repo):
             ok = same_name and eq_false and raises and tail_true and src(lp.iter) in [a.arg for a in n.args.args]
     col.add("C14.R4", "ok_to_add_code_block", "same-name-equal-false-unequal-raise", ok,
             "must scan every earlier block: same name & equal -> False, same name & different -> ValueError, otherwise True", ok_fn.loc)
+    # the list scanned holds every kind of specification (functions, collections, job scripts, inject blocks): only inject
+    # blocks compete for an inject block's name - either the test restricts the kind or every caller passes a filtered list
+    kind = False
+    for lp in [x for x in ast.walk(n) if isinstance(x, ast.For)]:
+        lv = src(lp.target)
+        for c in ast.walk(lp):
+            if isinstance(c, ast.Call) and call_name(c) == "isinstance" and len(c.args) == 2 and src(c.args[0]) == lv and "InjectCodeBlock" in src(c.args[1]):
+                kind = True
+            if isinstance(c, ast.Compare) and isinstance(c.ops[0], (ast.Is, ast.Eq)) and {src(c.left), src(c.comparators[0])} == {f"type({lv})", f"type({n.args.args[0].arg})"}:
+                kind = True
+    if not kind:
+        callers = [c for f in repo.all_functions() for c in walk_no_nested(f.node) if isinstance(c, ast.Call) and call_name(c) == "ok_to_add_code_block"]
+        kind = bool(callers) and all(len(c.args) > 1 and isinstance(c.args[1], (ast.ListComp, ast.GeneratorExp)) and "InjectCodeBlock" in src(c.args[1]) for c in callers)
+    col.add("C14.R4", "ok_to_add_code_block", "name-competes-with-inject-blocks-only", kind,
+            "the duplicate test must be restricted to InjectCodeBlock entries: a job script, function or collection of the same name declared further out "
+            "is not a duplicate, and whether it is met first depends only on where along the chain the metadata was attached", ok_fn.loc)
 
 
 def check_ib_fetch_verbatim(col: Collector, rule: str, repo: Repo):
